@@ -209,6 +209,13 @@ def run_sig(case, ctx):
         once = structure(wrap(f, stack))
         twice = structure(wrap(f, [W] + stack))
         ctx.check('no_double_wrapping', once == twice, lambda: '%s twice over %s: %r vs once %r' % (W, stack[1:], twice, once))
+        # wrapping an existing wrapped function builds a NEW object: the one handed over is what it was (structure and all the way down)
+        D_ = decorators()
+        for inner_stack in ([stack[1:] + [W]] if len(stack) >= 3 and stack[0] not in stack[1:] else []) + ([stack] if len(stack) >= 2 else []):
+            xobj = wrap(f, inner_stack)
+            before_s = structure(xobj)
+            ctx.call(D_[W], xobj)
+            ctx.check('no_double_wrapping', structure(xobj) == before_s, lambda: 'wrapping %s with %s changed the object that was handed over: %r -> %r' % ('('.join(inner_stack), W, before_s, structure(xobj)))
         if len(stack) >= 2:
             X = stack[1]
             if X != W:
